@@ -201,7 +201,7 @@ E('groupselectfirst', lambda s: etl.groupselectfirst(s, 'f0'), group='reductions
 E('groupselectlast', lambda s: etl.groupselectlast(s, 'f0'), group='reductions')
 E('groupselectmin', lambda s: etl.groupselectmin(s, 'f0', 'f1'), group='reductions')
 E('groupselectmax', lambda s: etl.groupselectmax(s, 'f0', 'f1'), group='reductions')
-E('fold', lambda s: etl.fold(s, 'f0', lambda a, b: a + b, value='f1'), group='reductions')
+E('fold', lambda s: etl.fold(s, 'f0', lambda a, b: '%s%s' % (a, b), value='f1'), group='reductions')
 E('merge1', lambda s: etl.merge(s, [['f0', 'f1', 'f2'], [2, 'm', 'n']], key='f0'), group='reductions')
 # dedup
 E('duplicates', lambda s: etl.duplicates(s, 'f0'), group='dedup')
